@@ -96,6 +96,29 @@ def r64(F):
         for f in ("convert_list", "convert_tuple", "convert_env"):
             fn = F.fn(p + f)
             loops = cfg.natural_loops(fn)
+            if not loops:
+                # iterator pipeline instead of a loop: map + collect into a Result keeps every element or fails as a whole;
+                # an adaptor that can skip an item (flat_map/filter_map over a Result swallow the Err and the element) does not
+                its = {}
+                for b, t in fn.calls():
+                    c = callee(t)
+                    if "::Iterator::" in c or c.startswith("core::iter::"):
+                        its.setdefault(c.split("::")[-1], []).append(b)
+                need("collect" in its or "for_each" in its or "try_fold" in its, "neither a loop nor an iterator pipeline in %s%s" % (p, f))
+                skipping = sorted(set(its) & {"flat_map", "filter_map", "flatten", "filter", "take", "skip", "step_by", "take_while",
+                                               "skip_while", "map_while", "last", "nth", "find", "find_map"})
+                cb = (its.get("collect") or its.get("try_fold") or its.get("for_each"))[0]
+                dest_ty = fn.local_ty(fn.term(cb)["dest"]["l"])
+                into_result = dest_ty.startswith("core::result::Result") or "try_fold" in its
+                ok = not skipping and "map" in its and into_result
+                r.inst("%s:%s:every-element" % (k, f), fn.where(cb), ok,
+                       "map + collect into a Result: every element is converted or the conversion fails" if ok else
+                       ("the pipeline uses %s: an element whose conversion fails is skipped and its error is lost" % ", ".join(skipping) if skipping else
+                        "the pipeline does not collect into a Result: a failed element does not fail the conversion"))
+                if f == "convert_list":
+                    rev = sorted(set(its) & {"rev"})
+                    r.inst("%s:convert_list:order" % k, fn.where(cb), not rev, "forward pipeline" if not rev else "list order not preserved (%s)" % rev)
+                continue
             need(len(loops) == 1, "expected one loop in %s%s" % (p, f))
             h, body = next(iter(loops.items()))
             nexts = [b for b in body if fn.term(b)["k"] == "call" and callee(fn.term(b)).endswith("::next")]
@@ -201,4 +224,6 @@ def r70(F):
     return r
 
 
-RULES = [r10, r11, r12, r12b, r64, r70]
+from . import c14 as _c14
+
+RULES = [r10, r11, r12, r12b, r64, r70, _c14.r49t]
